@@ -369,10 +369,11 @@ def long_run(n, cache_size=45, levy="none", tol=0.0, halfway=False, dt_hint=Fals
                 seq = seq + list(reversed(seq))
             step = max(1, len(seq) // 400)
             for i, (a, b) in enumerate(seq):
-                if levy == "none":
-                    bm(a, b)
-                else:
-                    bm(a, b, return_U=True, return_A=levy in ("davie", "foster"))
+                with B.cpu_watchdog():
+                    if levy == "none":
+                        bm(a, b)
+                    else:
+                        bm(a, b, return_U=True, return_A=levy in ("davie", "foster"))
                 if i % step == 0:
                     out["max_cache"] = max(out["max_cache"], B.cache_len(bm))
             out["max_cache"] = max(out["max_cache"], B.cache_len(bm))
